@@ -84,21 +84,34 @@ fn written_forms(pkg: &str) -> Vec<String> {
     v
 }
 
-fn make_case(ki: usize, pi: usize, position: usize, ctx: usize, wi: usize, h: History) -> Option<Case> {
+fn make_case(ki: usize, pi: usize, position: usize, ctx: usize, wi: usize, h: History, split: bool) -> Option<Case> {
     let kind = KINDS[ki];
     let pkg = PKGS[pi];
     let forms = written_forms(pkg);
     let written = forms.get(wi)?;
     let other_kind = KINDS[(ki + 1) % 3];
+    // `split`: every token of the referrers on its own line (layout inside dotted names)
+    let mk = |id: &str, mut d: Document| {
+        if split {
+            let toks = emit(&mut d);
+            let r = crate::model::layout::render(
+                &toks,
+                &crate::model::layout::Layout { name: "split".into(), dev: vec![], base: Some(" /* c */\n".into()) },
+            );
+            ProjFile::from_rendered(id, d, r)
+        } else {
+            ProjFile::from_doc(id, d)
+        }
+    };
     let files = vec![
         ProjFile::from_doc("tgt", target(kind, pkg, "Tgt")),
         ProjFile::from_doc("atgt", target(ItemKind::Enum, pkg, "ATgt")),
         ProjFile::from_doc("other", target(other_kind, "zz", "Tgt")),
-        ProjFile::from_doc(
+        mk(
             "ref1",
             referrer("Ref1", &[format!("{pkg}.Tgt"), format!("{pkg}.ATgt")], written, Some("ATgt"), position, ctx),
         ),
-        ProjFile::from_doc("ref2", referrer("Ref2", &["zz.Tgt".to_string()], "Tgt", None, position, ctx)),
+        mk("ref2", referrer("Ref2", &["zz.Tgt".to_string()], "Tgt", None, position, ctx)),
     ];
     let facts = facts_of(&files);
     let mut expect = serde_json::Map::new();
@@ -224,12 +237,14 @@ pub fn run(tier: Tier, seed: u64) -> i32 {
         Tier::Quick => vec![History::Plain],
         Tier::Thorough => vec![History::Plain, History::Replaced, History::ExtraRemoved, History::Reversed],
     };
-    let n = 3 * 3 * 4 * nctx * 3 * hists.len();
+    let n = 3 * 3 * 4 * nctx * 3 * hists.len() * 2;
     super::drive(
         &stats,
         n,
         5,
         |i| {
+            let split = i % 2 == 1;
+            let i = i / 2;
             let h = hists[i % hists.len()];
             let i = i / hists.len();
             let wi = i % 3;
@@ -237,7 +252,10 @@ pub fn run(tier: Tier, seed: u64) -> i32 {
             let position = (i / (3 * nctx)) % 4;
             let pi = (i / (12 * nctx)) % 3;
             let ki = i / (36 * nctx);
-            let c = make_case(ki, pi, position, ctx, wi, h)?;
+            let mut c = make_case(ki, pi, position, ctx, wi, h, split)?;
+            if split {
+                c.label.push_str(" (referrers laid out one token per line)");
+            }
             stats.nontrivial(fnv(&c.label));
             if i % 37 == 0 {
                 stats.sample(json!({"label": c.label, "files": c.files}));
